@@ -94,7 +94,9 @@ NoCtx == [nsd |-> <<>>, excl |-> <<>>, alias |-> <<>>, sets |-> <<>>]
 WithBody(c, b) == [nsd |-> c.nsd, excl |-> c.excl, alias |-> c.alias, sets |-> c.sets, body |-> b]
 In(e, b) == [e EXCEPT !.body = b]
 Witnesses ==
-  { [tag |-> "staleExcludedPrefix",
+  { [tag |-> "attrListKeyedByQName",
+     ss  |-> WithBody(NoCtx, <<In(Lre("", <<>>, <<>>, <<>>, <<>>), <<Att("p", TRUE, V, "1"), Att("q", TRUE, V, "2")>>)>>)],
+    [tag |-> "staleExcludedPrefix",
      ss  |-> WithBody([NoCtx EXCEPT !.nsd = <<<<"p", U>>>>, !.excl = <<"p">>], <<In(Lre("", <<<<"p", V>>>>, <<>>, <<>>, <<>>), <<Att("p", FALSE, "", "1")>>)>>)] }
 WitnessReal(w) == LET r == Run(w.ss, Src) IN w.tag \in r.tags /\ KDFaults(w.tag) \cap FaultsOf(Requested(w.ss, Src), r.raw) # {}
 DeviationsAreReal == (n = 0 /\ ctx = 1) => /\ \A w \in Witnesses : WitnessReal(w)
